@@ -394,3 +394,23 @@ package consensus
 //@   requires dp != nil && !held(dp.chainLock)
 //@   assert @call UpdateForkForConfirm#0: held(dp.chainLock)
 //@   ensures !held(dp.chainLock)
+
+// MineBlock: the head it extends is read under the chain lock (a head read before the lock is stale by the time the lock is
+// granted: the node would mine a sibling of its own current block), and the block is saved under it.  Header preparation, slot
+// check and the mining run are assumed; the pool's representation invariant at the two pool calls is assumed (it is proved for
+// every pool operation under C18, but the assumed mining run in between cannot carry it).
+//@ func (*BlockAssembler).PrepareHeader   trusted
+//@   modifies all
+//@ func (*Validator).VerifyMiner   trusted
+//@   modifies nothing
+//@ func (*BlockAssembler).MineBlock   trusted
+//@   modifies all
+//@ func (*DPoVP).CurrentBlock   trusted
+//@   modifies nothing
+//@   ensures result != nil && result.Header != nil
+//@ func (*DPoVP).MineBlock
+//@   props C19
+//@   requires dp != nil && !held(dp.chainLock)
+//@   opt trust-pre=GetTxs#0,DelTxs#0
+//@   assert @call CurrentBlock#0: held(dp.chainLock)
+//@   ensures !held(dp.chainLock)
